@@ -108,6 +108,71 @@ Proof.
     apply shift_neg_w_eq; try assumption; lia.
 Qed.
 
+(* ---- Sum ---- *)
+Definition in_range (c : Z * Z) : Prop := 0 <= fst c <= max64.
+
+Lemma cuts_of_w_eq l : forall cur, segs_wf l = true -> 0 <= cur -> cur + total_len l <= max64 ->
+  cuts_of_w cur l = cuts_of cur l /\ Forall in_range (cuts_of cur l).
+Proof.
+  induction l as [|s r IH]; intros cur Hwf Hc Hb; simpl; [split; [reflexivity|constructor]|].
+  destruct (len s) as [n|] eqn:Ls.
+  - destruct (head_budget s r n cur Hwf Ls Hc Hb) as (Hn & Hr & H1 & H2 & E). rewrite E.
+    destruct (IH (cur + n) Hr H1 H2) as [I1 I2]. rewrite I1. split; [reflexivity|].
+    pose proof (total_len_nonneg r Hr).
+    destruct (mag s =? 0); simpl; [exact I2|].
+    constructor; [unfold in_range; simpl; lia|]. constructor; [unfold in_range; simpl; lia|exact I2].
+  - split; [reflexivity|]. apply segs_wf_cons in Hwf. destruct Hwf as [_ Hr].
+    pose proof (total_len_nonneg r Hr). rewrite total_len_cons in Hb. unfold fin_len_z in Hb. rewrite Ls in Hb.
+    destruct (mag s =? 0); constructor; [unfold in_range; simpl; lia|constructor].
+Qed.
+
+Lemma lens_ok_b_spec l : lens_ok_b l = true -> lens_ok l.
+Proof. unfold lens_ok_b. intros H. apply andb_prop in H. destruct H as [H1 H2]. apply Z.leb_le in H2. split; assumption. Qed.
+
+Lemma flat_cuts_w_eq ls : forallb lens_ok_b ls = true ->
+  flat_map (cuts_of_w 0) ls = flat_map (cuts_of 0) ls /\ Forall in_range (flat_map (cuts_of 0) ls).
+Proof.
+  induction ls as [|l ls IH]; simpl; intros H; [split; [reflexivity|constructor]|].
+  apply andb_prop in H. destruct H as [Hl Hls]. destruct (lens_ok_b_spec l Hl) as [Hwf Hb].
+  destruct (cuts_of_w_eq l 0 Hwf ltac:(lia) ltac:(lia)) as [E F]. destruct (IH Hls) as [E' F'].
+  rewrite E, E'. split; [reflexivity|]. apply Forall_app. split; assumption.
+Qed.
+
+Lemma insert_cut_forall (P : Z * Z -> Prop) c l : P c -> Forall P l -> Forall P (insert_cut c l).
+Proof.
+  intros Hc. induction l as [|x l IH]; intros H; simpl; [constructor; [exact Hc|constructor]|].
+  inversion H; subst. destruct (fst c <? fst x); constructor; auto.
+Qed.
+Lemma sort_cuts_forall (P : Z * Z -> Prop) l : Forall P l -> Forall P (sort_cuts l).
+Proof.
+  intros H. unfold sort_cuts. apply Forall_rev in H. induction (rev l) as [|x k IH]; simpl; [constructor|].
+  inversion H; subst. apply insert_cut_forall; auto.
+Qed.
+
+Lemma sum_loop_w_eq cuts : forall done open last, Forall in_range cuts -> 0 <= last <= max64 ->
+  sum_loop_w cuts done open last = sum_loop cuts done open last.
+Proof.
+  induction cuts as [|[a dl] r IH]; intros done open last F Hl; simpl; [reflexivity|].
+  inversion F as [|? ? Fa Fr]; subst. unfold in_range in Fa. simpl in Fa.
+  rewrite sub64_id by (unfold min64, max64 in *; lia).
+  destruct (a - last =? 0); apply IH; assumption || lia.
+Qed.
+
+Theorem sum_w_eq ls : forallb lens_ok_b ls = true -> sum_w ls = sum ls.
+Proof.
+  intros H. destruct (flat_cuts_w_eq ls H) as [E F]. unfold sum_w, sum, calc_cuts_w, calc_cuts. rewrite E.
+  rewrite sum_loop_w_eq; [reflexivity|apply sort_cuts_forall; exact F|unfold max64; lia].
+Qed.
+
+(* beyond the guard the pointwise law is false of the code: the offset of the second segment wraps *)
+Lemma sum_overflow_refuted :
+  exists ls t, forallb segs_wf ls = true /\ forallb segs_nonneg ls = true /\ 0 <= t /\
+               val (sum_w ls) t <> sumZ (map (fun l => val l t) ls).
+Proof.
+  exists [[mkSeg 1 (Some max64); mkSeg 2 (Some 5); mkSeg 3 None]], 2.
+  split; [reflexivity|]. split; [reflexivity|]. split; [lia|]. vm_compute. intros H; inversion H.
+Qed.
+
 (* ---- modes ---- *)
 Lemma mode_dur_guard_spec t m : mode_dur_guard t m = true ->
   lens_ok (msegs m) /\ mode_d t m = t - t_or_st t m.
